@@ -111,6 +111,10 @@ struct TopicInst {
     cr: usize,
     del_i: Option<usize>,
     del_r: Option<usize>,
+    /// event index of the latest GetTopic that found this instance
+    seen_alive: Option<usize>,
+    /// event index of the latest view of one of its subscriptions that said `_deleted_topic_`
+    reported_deleted: Option<usize>,
 }
 
 struct SubInst {
@@ -156,6 +160,8 @@ struct NameState {
     inst: Option<usize>,
     flux: usize,
     unknown: bool,
+    /// event index of the latest invoke / return / abort of a create or delete of the name
+    last_ctrl: usize,
 }
 
 struct StreamState {
@@ -198,6 +204,7 @@ pub struct Model<'a> {
     idx: usize,
     drain_started: bool,
     stuck_reported: bool,
+    last_qp_idx: usize,
     token_format_ok: bool,
 }
 
@@ -794,7 +801,9 @@ impl<'a> Model<'a> {
         match c.req.clone() {
             Req::CreateTopic { name } | Req::DeleteTopic { name } => {
                 let is_del = matches!(c.req, Req::DeleteTopic { .. });
+                let at = self.idx;
                 let n = self.tnames.entry(name.clone()).or_default();
+                n.last_ctrl = at;
                 if n.flux > 0 {
                     self.rep.feat.overlapping_control_on_name = true;
                 }
@@ -1052,16 +1061,49 @@ impl<'a> Model<'a> {
                 }
             }
         }
+        // a topic that exists, with no create or delete of its name in flight, serves its requests
+        {
+            let topic: Option<&String> = match &c.req {
+                Req::GetTopic { name } => Some(name),
+                Req::Publish { topic, .. } | Req::ListTopicSubs { topic, .. } => Some(topic),
+                _ => None,
+            };
+            if let Some(tname) = topic {
+                if code != 0 && code != 3 && code != 5 && code != 8 && code != 11 {
+                    let live = self
+                        .tnames
+                        .get(tname)
+                        .filter(|n| n.flux == 0 && !n.unknown && n.last_ctrl < c.invoke_idx)
+                        .and_then(|n| n.inst)
+                        .map(|ti| self.topics[ti].cr < c.invoke_idx && self.topics[ti].del_i.is_none())
+                        .unwrap_or(false);
+                    if live {
+                        self.v("live_topic_request_failed", &["C11", "C07"], format!("{} on the live topic {} was answered with code {}", req_kind(&c.req), tname, code));
+                    }
+                }
+            }
+        }
         match &c.req {
+            Req::GetTopic { name } => {
+                if code == 0 {
+                    // found by a request that was made after the instance's creation had returned
+                    let ti = self.tnames.get(name).and_then(|n| n.inst).filter(|ti| self.topics[*ti].cr < c.invoke_idx);
+                    if let Some(ti) = ti {
+                        self.topics[ti].seen_alive = Some(idx);
+                        self.half_deleted_check(ti);
+                    }
+                }
+            }
             Req::CreateTopic { name } => {
                 let n = self.tnames.entry(name.clone()).or_default();
                 n.flux = n.flux.saturating_sub(1);
+                n.last_ctrl = idx;
                 match &out {
                     Outcome::Topic { name: echoed } => {
                         if echoed != name {
                             self.v("echo_mismatch", &["C18", "C10"], format!("CreateTopic({}) echoed {}", name, echoed));
                         }
-                        self.topics.push(TopicInst { name: name.clone(), ci: c.invoke_idx, cr: idx, del_i: None, del_r: None });
+                        self.topics.push(TopicInst { name: name.clone(), ci: c.invoke_idx, cr: idx, del_i: None, del_r: None, seen_alive: None, reported_deleted: None });
                         let id = self.topics.len() - 1;
                         let same = self.topics.iter().filter(|t| t.name == *name).count();
                         self.rep.feat.topic_instances_same_name = self.rep.feat.topic_instances_same_name.max(same);
@@ -1090,6 +1132,7 @@ impl<'a> Model<'a> {
             Req::DeleteTopic { name } => {
                 let n = self.tnames.entry(name.clone()).or_default();
                 n.flux = n.flux.saturating_sub(1);
+                n.last_ctrl = idx;
                 if code == 0 {
                     if let Some(i) = n.inst {
                         self.topics[i].del_r = Some(idx);
@@ -1146,14 +1189,14 @@ impl<'a> Model<'a> {
                         // already have removed what this call created
                         let raced = self.tr.calls.iter().any(|o| matches!(&o.req, Req::DeleteSub { name: dn } if dn == name) && o.invoke_idx > c.invoke_idx && o.invoke_idx < idx);
                         // the forced case: an OK delete that found no known instance when it was made,
-                        // began and returned inside this create's interval, and overlapped no other
-                        // create of the name, removed what this call created
+                        // returned inside this create's interval, and overlapped no other create of
+                        // the name, removed what this call created
                         let by: Option<(usize, usize)> = self
                             .tr
                             .calls
                             .iter()
                             .filter(|o| matches!(&o.req, Req::DeleteSub { name: dn } if dn == name))
-                            .filter(|o| o.invoke_idx > c.invoke_idx && o.done.as_ref().map(|d| d.0 < idx && d.2.code() == 0).unwrap_or(false))
+                            .filter(|o| o.done.as_ref().map(|d| d.0 > c.invoke_idx && d.0 < idx && d.2.code() == 0).unwrap_or(false))
                             .filter(|o| !self.delete_target.contains_key(&o.id))
                             .filter(|o| {
                                 let (di, dr) = (o.invoke_idx, o.done.as_ref().unwrap().0);
@@ -1445,6 +1488,14 @@ impl<'a> Model<'a> {
         }
         // topic
         let mut topic_problem = None;
+        if view.topic == "_deleted_topic_" {
+            if let Some(ti) = s.topic_inst {
+                let at = self.idx;
+                self.topics[ti].reported_deleted = Some(at);
+                self.half_deleted_check(ti);
+            }
+        }
+        let s = &self.subs[si];
         if let Some(ti) = s.topic_inst {
             let t = &self.topics[ti];
             let tn = self.tnames.get(&t.name);
@@ -1466,6 +1517,25 @@ impl<'a> Model<'a> {
         if let Some(p) = topic_problem {
             let d = format!("{} of {}: {}", what, self.subs[si].name, p);
             self.v("subscription_topic_view", &["C11", "C10"], d);
+        }
+    }
+
+    /// A topic whose subscriptions say it was deleted cannot be looked up, and vice versa: once
+    /// every create / delete of the name has ended (returned or been abandoned) and a quiescent
+    /// point has passed, the two observations must agree.
+    fn half_deleted_check(&mut self, ti: usize) {
+        let t = &self.topics[ti];
+        let (a, b) = match (t.reported_deleted, t.seen_alive) {
+            (Some(a), Some(b)) => (a, b),
+            _ => return,
+        };
+        let n = match self.tnames.get(&t.name) {
+            Some(n) if n.flux == 0 && n.inst == Some(ti) => n,
+            _ => return,
+        };
+        if n.last_ctrl < self.last_qp_idx && self.last_qp_idx < a.min(b) {
+            let name = t.name.clone();
+            self.v("topic_half_deleted", &["C11", "C16"], format!("the subscriptions of {} report their topic as deleted while GetTopic still finds it, with no create or delete of the name in flight", name));
         }
     }
 
@@ -1595,9 +1665,11 @@ impl<'a> Model<'a> {
         }
         match &c.req {
             Req::CreateTopic { name } | Req::DeleteTopic { name } => {
+                let at = self.idx;
                 let n = self.tnames.entry(name.clone()).or_default();
                 n.flux = n.flux.saturating_sub(1);
                 n.unknown = true;
+                n.last_ctrl = at;
             }
             Req::CreateSub { name, .. } | Req::DeleteSub { name } => {
                 let n = self.snames.entry(name.clone()).or_default();
@@ -1732,6 +1804,7 @@ impl<'a> Model<'a> {
     fn on_qp(&mut self, stats: &[SubStat]) {
         self.rep.feat.qps += 1;
         let idx = self.idx;
+        self.last_qp_idx = idx;
         // pending stream control messages have been processed by now (or the stream ended)
         for si in 0..self.subs.len() {
             let pend = std::mem::take(&mut self.subs[si].pending_ctrl);
